@@ -1140,6 +1140,11 @@ func runC11(a vh.Args, o *vh.Oracle, r *vh.Result) error {
 	if err := c11Hammer(r, rng); err != nil {
 		return err
 	}
+	lateTrials := 3000
+	if a.Tier == "thorough" {
+		lateTrials = 40000
+	}
+	c11FailoverLateReports(r, rng, lateTrials, map[string]interface{}{"conc": "failover-late-reports", "trials": 60000, "late_seed": a.Seed})
 	if err := c11History(a, o, r, rng); err != nil {
 		return err
 	}
